@@ -215,13 +215,88 @@ Theorem gen_claim_section_agrees_on_grid :
   forallb (λ '(g, ep), claim_agrees g ep) claim_grid = true.
 Proof. Time vm_compute. reflexivity. Qed.
 
+(** ** the lock section of RunPlan = plan_txn (ids reserved as they are allocated, one clock reading for the epic
+    and one per task, duplicate edges suppressed, id-level cycle re-check, ONE rewrite of the log) *)
+Definition optstr_val (o : option string) : cval := match o with Some b => VStr b | None => VNil end.
+Definition ptask_val (t : ptask) : cval :=
+  VStruct "PlanTaskInput" [("title", VStr (pt_title t)); ("body", optstr_val (pt_body t)); ("after", VList (VStr <$> pt_after t))].
+Definition plan_val (p : plan) : cval :=
+  VStruct "PlanInput" [("title", VStr (p_title p)); ("body", optstr_val (p_body p)); ("tasks", VList (ptask_val <$> p_tasks p))].
+
+Definition plan_env : Cmd.env :=
+  Env ["T1"; "P1"; "N1"; "N1"; "N2"; "E1"; "N3"; "N4"; "N5"; "N6"] ["u-1"; "u-2"; "u-3"; "u-4"; "u-5"; "u-6"] 100%Z 200%Z
+      [201%Z; 202%Z; 203%Z; 204%Z; 205%Z] FRegular "sha" "mt" "git".
+
+Definition plan_grid : list plan :=
+  [Plan "one" None [PTask "a" None []];
+   Plan "chain" (Some "epic body") [PTask "a" None []; PTask "b" (Some "bb") ["a"]; PTask "c" None ["b"]];
+   Plan "dups" None [PTask "a" None []; PTask "b" None ["a"; "a"]; PTask "c" (Some "x") ["a"; "b"; "a"]];
+   Plan "diamond" None [PTask "top" None ["l"; "r"]; PTask "l" None ["base"]; PTask "r" None ["base"]; PTask "base" None []];
+   Plan "forward" None [PTask "first" None ["last"]; PTask "last" None []]].
+
+Definition plan_captured (p : plan) (name : string) : cval :=
+  if name_eqb name "input" then plan_val p
+  else if name_eqb name "out" then VStruct "planOutput" []
+  else if name_eqb name "err" then VNil
+  else if name_eqb name "verr" then VNil
+  else if name_eqb name "opts" then VNil
+  else if name_eqb name "args" then VNil
+  else VStr ("<" ++ name ++ ">").
+
+Definition out_ids (v : cval) : option (string * list string * list (string * string)) :=
+  match v with
+  | VStruct _ fs =>
+      match fassoc "epic" fs, fassoc "tasks" fs, fassoc "edges" fs with
+      | Some ep, Some (VList ts), Some es =>
+          match field_str "id" ep, as_list es with
+          | Some eid, Some el =>
+              let tids := omap (field_str "id") ts in
+              let edges := omap (λ e, match field_str "from_id" e, field_str "to_id" e with Some a, Some b => Some (a, b) | _, _ => None end) el in
+              if Nat.eqb (List.length tids) (List.length ts) && Nat.eqb (List.length edges) (List.length el)
+              then Some (eid, tids, edges) else None
+          | _, _ => None
+          end
+      | _, _, _ => None
+      end
+  | _ => None
+  end.
+
+Definition plan_agrees (g : graph) (p : plan) : bool :=
+  match lookup "RunPlan" gen_cmd_sections with
+  | Some (caps, body) =>
+      let e := plan_env in
+      let ρ := (λ nm, (nm, plan_captured p nm)) <$> caps in
+      let clock := e_now e :: take (List.length (p_tasks p)) (e_nows e) ++ [900%Z; 901%Z; 902%Z; 903%Z; 904%Z; 905%Z; 906%Z; 907%Z] in
+      match crun_section fuel gen_cmd_prog body ρ (st0 e clock (Some g)) with
+      | Some (r, ρ', σ) =>
+          match plan_txn e p [] g with
+          | Some (evs, RPlanned eid tids edges) =>
+              is_vnil r && bool_decide (cs_writes σ = [evs])
+              && match lookup "out" ρ' with
+                 | Some o => bool_decide (out_ids o = Some (eid, tids, edges))
+                 | None => false
+                 end
+          | Some _ => false
+          | None => match r with VErr _ => bool_decide (cs_writes σ = []) | _ => false end
+          end
+      | None => false
+      end
+  | None => false
+  end.
+
+Theorem gen_plan_section_agrees_on_grid :
+  forallb plan_valid plan_grid = true
+  /\ forallb (λ g, forallb (plan_agrees g) plan_grid) [g0; empty_graph] = true.
+Proof. split; vm_compute; reflexivity. Qed.
+
 (** The grids are not trivial: how many points, and how many of them are accepted requests. *)
 Definition grid_sizes : list nat :=
   [List.length bse_grid; List.length (filter (λ '(t, u, a), is_some (build_set_events "T1" t u a 100%Z)) bse_grid);
    List.length set_grid; List.length (filter (λ '(i, u, a, fk), is_some (set_txn (mk_env fk) i u a g0)) set_grid);
    List.length id_seqs; List.length (filter (λ ids, is_some (seq_txn true g0 (seq_edges ids))) id_seqs);
    List.length new_grid; List.length (filter (λ '(ie, ep, u, a, fk), is_some (new_txn (mk_env fk) ie "the title" "the body" ep u a g0)) new_grid);
-   List.length claim_grid].
+   List.length claim_grid; List.length plan_grid;
+   List.length (filter (λ p, is_some (plan_txn plan_env p [] g0)) plan_grid)].
 Eval vm_compute in grid_sizes.
 
 Print Assumptions gen_buildSetEvents_agrees_on_grid.
